@@ -2,8 +2,9 @@
   C14 — vector index membership = active embedded frames.
 
   Model: MvModel/Core.lean (the `Memvid` handle; the in-memory `vec_index` is `Mem.vec`, Uncompressed
-  representation = default features) + MvModel/VecIdx.lean (crash recovery as found / as repaired by
-  fixes/C14.diff: `stepCfg fix`; the index representations of both build configurations: `VecRepr`).
+  representation = default features; crash recovery with repair 5c6fd4b = fixes/C14.diff) +
+  MvModel/VecIdx.lean (the crash recovery BEFORE that repair: `stepPre` / `runPre`, kept for the
+  counterexample; the index representations of both build configurations: `VecRepr`).
   Reference: `embRun` (MvProps/C14Steps.lean) — for every frame id the embedding the ACKNOWLEDGED
   call gave that frame: directly (`put_with_embedding`), per chunk (`put_with_chunk_embeddings`), or
   carried over by `update_frame` without an embedding — together with C01's reference frame table
@@ -37,13 +38,13 @@ theorem join_eq_some {α : Type} (o : Option (Option α)) (a : α) : o.join = so
   | none => simp
   | some x => cases x <;> simp
 
-/-- **C14, at every moment.**  After ANY history (with the repaired crash recovery) the in-memory
-    vector index holds exactly the COMMITTED frames that are active and were given an embedding, each
-    once and with the embedding it was given — whether or not records are still pending. -/
+/-- **C14, at every moment.**  After ANY history the in-memory vector index holds exactly the
+    COMMITTED frames that are active and were given an embedding, each once and with the embedding it
+    was given — whether or not records are still pending. -/
 theorem C14_index_is_committed_active_embedded (ops : List Op) (hok : ∀ op ∈ ops, OpOk op) :
-    IndexIs (runCfg true Mem.create ops)
-      (wantOf ((runCfg true Mem.create ops).frames.map view) (embRun [] (traceCfg true Mem.create ops))) := by
-  have hv := runCfg_vinv Mem.create [] ops create_vinv hok
+    IndexIs (run Mem.create ops)
+      (wantOf ((run Mem.create ops).frames.map view) (embRun [] (trace Mem.create ops))) := by
+  have hv := run_vinv Mem.create [] ops create_vinv hok
   refine ⟨fun e => ?_, hv.nodup⟩
   rw [hv.mem e, isActive_iff, statusOf_view]
   unfold wantOf
@@ -51,67 +52,49 @@ theorem C14_index_is_committed_active_embedded (ops : List Op) (hok : ∀ op ∈
   · rintro ⟨h1, h2⟩
     rw [if_pos h1, join_eq_some]; exact h2
   · intro h
-    by_cases h1 : ((List.map view (runCfg true Mem.create ops).frames)[e.id]?).map (·.status) = some Status.active
+    by_cases h1 : ((List.map view (run Mem.create ops).frames)[e.id]?).map (·.status) = some Status.active
     · rw [if_pos h1, join_eq_some] at h; exact ⟨h1, h⟩
     · rw [if_neg h1] at h; cases h
 
-theorem durable_framesCfg (fix : Bool) (m : Mem) (op : Op) (hi : Inv m) (hd : op.durable = true) :
-    (stepCfg fix m op).1.frames.map view = abs (stepCfg fix m op).1 := by
-  cases op with
-  | crash ft =>
-    obtain ⟨_, ha, hf⟩ := crashCfg_sim fix m ft hi
-    show (m.crashCfg fix ft).1.frames.map view = abs (m.crashCfg fix ft).1
-    rw [hf, ha]
-  | commit ft => exact durable_frames m _ hi hd
-  | reopen a b => exact durable_frames m _ hi hd
-  | commitSkipIndexes => exact durable_frames m _ hi hd
-  | doctor v rt rl rv a b c d => exact durable_frames m _ hi hd
-  | create => cases hd
-  | put a t => cases hd
-  | update id u t => cases hd
-  | delete id t => cases hd
-  | beginBatch d ws => cases hd
-  | endBatch => cases hd
-  | finalizeIndexes ft => cases hd
-  | vacuum a b => cases hd
-  | ticket s c b f => cases hd
-
-/-- the property at full strength, for the code with (`fix = true`) or without (`false`) the repair
-    of fixes/C14.diff: after any history that ends in a commit, a drop+open, a crash+open (WAL replay)
-    or a doctor run, the vector index holds exactly the frames that are ACTIVE BY THE ACKNOWLEDGED
-    CALLS (C01's reference run) and were given an embedding, each with the embedding it was given -/
-def C14_full (fix : Bool) : Prop :=
+/-- the property at full strength for a step function `stp` (the shared model's `step`, or the
+    pre-repair `stepPre`): after any history that ends in a commit, a drop+open, a crash+open (WAL
+    replay), a vacuum or a doctor run, the vector index holds exactly the frames that are ACTIVE BY THE
+    ACKNOWLEDGED CALLS (C01's reference run) and were given an embedding, each with the embedding it
+    was given -/
+def C14_holds (runF : Mem → List Op → Mem) (traceF : Mem → List Op → List (Op × Out)) : Prop :=
   ∀ (ops : List Op) (last : Op), last.durable = true → (∀ op ∈ ops ++ [last], OpOk op) →
-    IndexIs (runCfg fix Mem.create (ops ++ [last]))
-      (wantOf (specRun [] (traceCfg fix Mem.create (ops ++ [last]))) (embRun [] (traceCfg fix Mem.create (ops ++ [last]))))
+    IndexIs (runF Mem.create (ops ++ [last]))
+      (wantOf (specRun [] (traceF Mem.create (ops ++ [last]))) (embRun [] (traceF Mem.create (ops ++ [last]))))
 
-/-- **C14.**  With the repaired crash recovery the property holds at full strength. -/
-theorem C14_vector_index_is_active_embedded_frames : C14_full true := by
+/-- the code as it is (with repair 5c6fd4b) -/
+def C14_full : Prop := C14_holds run trace
+/-- the code before the repair -/
+def C14_full_before_repair : Prop := C14_holds runPre tracePre
+
+/-- **C14.**  The property holds at full strength. -/
+theorem C14_vector_index_is_active_embedded_frames : C14_full := by
   intro ops last hd hok
   have h := C14_index_is_committed_active_embedded (ops ++ [last]) hok
-  have hr := runCfg_refines true Mem.create (ops ++ [last]) create_inv
-  have hr0 := runCfg_refines true Mem.create ops create_inv
-  have hdur : (runCfg true Mem.create (ops ++ [last])).frames.map view = abs (runCfg true Mem.create (ops ++ [last])) := by
-    rw [runCfg_append]
-    exact durable_framesCfg true _ last hr0.1 hd
-  rw [hdur, hr.2] at h
+  have hdur : (run Mem.create (ops ++ [last])).frames.map view = abs (run Mem.create (ops ++ [last])) := by
+    rw [run_append]
+    exact durable_frames _ last (run_create_refines ops).1 hd
+  rw [hdur, C01_refines] at h
   exact h
 
 /-- the same at any quiescent moment (nothing but `Lex` records pending), however it came about -/
-theorem C14_quiescent (ops : List Op) (hok : ∀ op ∈ ops, OpOk op) (hq : OnlyLex (runCfg true Mem.create ops).pending) :
-    IndexIs (runCfg true Mem.create ops)
-      (wantOf (specRun [] (traceCfg true Mem.create ops)) (embRun [] (traceCfg true Mem.create ops))) := by
+theorem C14_quiescent (ops : List Op) (hok : ∀ op ∈ ops, OpOk op) (hq : OnlyLex (run Mem.create ops).pending) :
+    IndexIs (run Mem.create ops)
+      (wantOf (specRun [] (trace Mem.create ops)) (embRun [] (trace Mem.create ops))) := by
   have h := C14_index_is_committed_active_embedded ops hok
-  have hr := runCfg_refines true Mem.create ops create_inv
-  have : (runCfg true Mem.create ops).frames.map view = abs (runCfg true Mem.create ops) := by
+  have : (run Mem.create ops).frames.map view = abs (run Mem.create ops) := by
     unfold Mv.Core.abs; rw [sApply_onlyLex _ _ hq]
-  rw [this, hr.2] at h
+  rw [this, C01_refines] at h
   exact h
 
 /-- what is persisted is what is in memory: a drop+open finds the same index -/
 theorem C14_persisted_index (ops : List Op) (hok : ∀ op ∈ ops, OpOk op) :
-    (runCfg true Mem.create ops).pVec.getD [] = vecL (runCfg true Mem.create ops) :=
-  (runCfg_vinv Mem.create [] ops create_vinv hok).pv
+    (run Mem.create ops).pVec.getD [] = vecL (run Mem.create ops) :=
+  (run_vinv Mem.create [] ops create_vinv hok).pv
 
 /-- a concrete sufficient condition for `OpOk` of a put: every embedding passed is a non-empty vector
     and the dimensions of the chunk embeddings are listed in `cdims` (what the harness sends) -/
@@ -140,7 +123,20 @@ theorem OpOk_put_of_dims (a : PutArgs) (t : Trace) (h1 : ∀ d tk, a.emb = some 
       rw [hnil] at hmem
       cases hmem
 
-/-! ## The code as found: the property is false (defect repaired by fixes/C14.diff) -/
+theorem applyRecords_ve (m : Mem) (recs : List (Nat × Entry)) (eng : Bool) (m1 : Mem) (δ : Delta)
+    (h : applyRecords m recs eng = some (m1, δ)) : m1.vecEnabled = m.vecEnabled := by
+  unfold applyRecords at h
+  by_cases he : recs.isEmpty
+  · simp only [he, if_true] at h; cases h; rfl
+  · simp only [he] at h
+    generalize applyLoop _ recs = r at h
+    cases r with
+    | none => simp at h
+    | some st =>
+      simp only [Bool.false_eq_true, if_false] at h
+      cases h; rfl
+
+/-! ## The code before repair 5c6fd4b: the property was false -/
 
 def embE : Emb := (3, "e0")
 /-- the witness: the first embedded put of a memory, then the process dies before any commit -/
@@ -149,7 +145,7 @@ def crashWitness : List Op := [.put { ts := 5, content := "aa", len := 10, plen 
 /-- `recover_wal` without the repair replays frame 0 (active, acknowledged with an embedding) and
     leaves the vector index without it: `vec_enabled` comes from the TOC on disk, which has no vector
     manifest yet, and `build_vec_artifact` returns nothing while vectors are disabled -/
-theorem C14_counterexample : ¬ C14_full false := by
+theorem C14_counterexample : ¬ C14_full_before_repair := by
   intro h
   have h1 := (h crashWitness (.crash 40) rfl (by
     intro op hop
@@ -159,25 +155,28 @@ theorem C14_counterexample : ¬ C14_full false := by
     · trivial)).1 { id := 0, dim := 3, tok := "e0" }
   exact absurd (h1.mpr (by decide)) (by decide)
 
-/-- the repaired recovery on the same witness keeps the vector -/
-example : vecL (runCfg true Mem.create (crashWitness ++ [.crash 40])) = [{ id := 0, dim := 3, tok := "e0" }] := by decide
-example : vecL (runCfg false Mem.create (crashWitness ++ [.crash 40])) = [] ∧
-    (runCfg false Mem.create (crashWitness ++ [.crash 40])).frames.map (fun f => (f.id, f.status)) = [(0, .active)] := by decide
+/-- the repaired recovery (the shared model) keeps the vector on the same witness -/
+example : vecL (run Mem.create (crashWitness ++ [.crash 40])) = [{ id := 0, dim := 3, tok := "e0" }] := by decide
+example : vecL (runPre Mem.create (crashWitness ++ [.crash 40])) = [] ∧
+    (runPre Mem.create (crashWitness ++ [.crash 40])).frames.map (fun f => (f.id, f.status)) = [(0, .active)] := by decide
 
-/-- the two recoveries differ only while embeddings are pending and vectors are off on disk -/
-theorem recoverWalCfg_same (m1 : Mem) (ft : Nat) (h : m1.vecEnabled = true ∨ pendingHasEmb m1.pending = false) :
-    m1.recoverWalCfg true ft = m1.recoverWalCfg false ft := by
-  unfold Mem.recoverWalCfg Mem.enableVecForReplay
-  rcases h with h | h <;> simp [h]
-
-/-- `Core.crash` is one of the two variants (whichever the shared model currently mirrors) -/
-theorem crash_is_a_variant :
-    (∀ (m : Mem) (ft : Nat), m.crash ft = m.crashCfg false ft) ∨ (∀ (m : Mem) (ft : Nat), m.crash ft = m.crashCfg true ft) := by
-  first
-    | exact Or.inl (fun m ft => by
-        show (({ m with queue := m.pQueue } : Mem).openFrom ft, Out.ok) = (({ m with queue := m.pQueue } : Mem).openFromCfg false ft, Out.ok)
-        rw [openFrom_eq])
-    | exact Or.inr (fun m ft => rfl)
+/-- the shared model's recovery is the pre-repair one plus `enableVecForEmbs`: they coincide whenever
+    vectors are already enabled when the file is opened -/
+theorem recoverWalPre_same (m1 : Mem) (ft : Nat) (h : m1.vecEnabled = true) :
+    m1.recoverWalPre ft = m1.recoverWal ft := by
+  unfold Mem.recoverWalPre Mem.recoverWal
+  split
+  · rfl
+  · cases hx : applyRecords m1 m1.pending true with
+    | none => rfl
+    | some p =>
+      obtain ⟨ma, δ⟩ := p
+      have hve : ma.vecEnabled = true := by
+        have := applyRecords_ve m1 m1.pending true ma δ hx
+        rw [this]; exact h
+      have : ma.enableVecForEmbs δ.embs = ma := by
+        unfold Mem.enableVecForEmbs; simp [hve]
+      simp only [this]
 
 /-! ## The index representations of the two build configurations -/
 
@@ -270,15 +269,15 @@ theorem exHistoryE_ok : ∀ op ∈ exHistoryE ++ [Op.reopen 100 101], OpOk op :=
   · trivial
   · trivial
 
-example : IndexIs (runCfg true Mem.create (exHistoryE ++ [.reopen 100 101]))
-    (wantOf (specRun [] (traceCfg true Mem.create (exHistoryE ++ [.reopen 100 101])))
-      (embRun [] (traceCfg true Mem.create (exHistoryE ++ [.reopen 100 101])))) :=
+example : IndexIs (run Mem.create (exHistoryE ++ [.reopen 100 101]))
+    (wantOf (specRun [] (trace Mem.create (exHistoryE ++ [.reopen 100 101])))
+      (embRun [] (trace Mem.create (exHistoryE ++ [.reopen 100 101])))) :=
   C14_vector_index_is_active_embedded_frames exHistoryE (.reopen 100 101) rfl exHistoryE_ok
 
-example : (vecL (runCfg true Mem.create (exHistoryE ++ [.reopen 100 101]))).map (fun e => (e.id, e.tok)) = [(4, "e3"), (5, "e3")] ∧
-    embRun [] (traceCfg true Mem.create (exHistoryE ++ [.reopen 100 101])) =
+example : (vecL (run Mem.create (exHistoryE ++ [.reopen 100 101]))).map (fun e => (e.id, e.tok)) = [(4, "e3"), (5, "e3")] ∧
+    embRun [] (trace Mem.create (exHistoryE ++ [.reopen 100 101])) =
       [some e3, some e1, some e2, none, some e3, some e3, none] ∧
-    (specRun [] (traceCfg true Mem.create (exHistoryE ++ [.reopen 100 101]))).map (fun f => (f.id, f.status)) =
+    (specRun [] (trace Mem.create (exHistoryE ++ [.reopen 100 101]))).map (fun f => (f.id, f.status)) =
       [(0, .superseded), (1, .superseded), (2, .deleted), (3, .active), (4, .active), (5, .active), (6, .active)] := by decide
 
 end Mv.Core
